@@ -341,12 +341,14 @@ pub fn run_spec(spec: &MtSpec, record_events: bool) -> MtOut {
         let live_values: usize = ends.iter().map(|e| e.arenas.iter().flatten().count() + e.handles.iter().filter(|h| h.owned).count()).sum::<usize>() + ctl.iter().count() + st.mailbox.iter().map(|m| m.len()).sum::<usize>();
         let zero_owned: usize = ends.iter().map(|e| e.handles.iter().filter(|h| h.owned && h.h.0.meta().3 == 0 && h.drop_id.is_none()).count()).sum();
         if live_values > 0 && !st.torn_down {
-            let any: &Arena = ctl.as_deref().or_else(|| ends.iter().flat_map(|e| e.arenas.iter().flatten()).next().map(|b| &**b)).unwrap_or_else(|| panic!("no arena value to observe"));
-            let refs = any.verif_refs();
-            if refs > live_values || refs + zero_owned < live_values {
-                st.viols.push(Violation { prop: "C13", class: "refs", detail: format!("[end] refs()={} but {} arena values / owned handles are alive ({} of them zero-sized owned buffers)", refs, live_values, zero_owned), op: 0 });
+            // refs() can only be observed through an arena value (owned handles do not expose it)
+            if let Some(any) = ctl.as_deref().or_else(|| ends.iter().flat_map(|e| e.arenas.iter().flatten()).next().map(|b| &**b)) {
+                let refs = any.verif_refs();
+                if refs > live_values || refs + zero_owned < live_values {
+                    st.viols.push(Violation { prop: "C13", class: "refs", detail: format!("[end] refs()={} but {} arena values / owned handles are alive ({} of them zero-sized owned buffers)", refs, live_values, zero_owned), op: 0 });
+                }
+                out.end_nodes = any.snap().nodes.len();
             }
-            out.end_nodes = any.snap().nodes.len();
         }
         if st.torn_down && live_values > zero_owned {
             st.viols.push(Violation { prop: "C13", class: "early_teardown", detail: format!("[end] backing store was released although {} arena values / owned handles are still alive", live_values), op: 0 });
